@@ -22,6 +22,7 @@
 package main
 
 import (
+	"bytes"
 	"fmt"
 	"math/rand/v2"
 	"net"
@@ -88,6 +89,7 @@ type op struct {
 	RD     uint64   `json:"rd,omitempty"`   // observe
 	Fam    int      `json:"fam,omitempty"`  // observe: 4 | 6
 	Reset  bool     `json:"reset,omitempty"`
+	Why    uint8    `json:"why,omitempty"` // peerdown: RFC 7854 reason 1..5 (0: 4)
 }
 
 type hist struct {
@@ -177,7 +179,7 @@ func genHist(rng *rand.Rand, nops int) hist {
 			}
 		case x < 18:
 			if s.up[pi] {
-				h.Ops = append(h.Ops, op{K: "peerdown", R: r, Peer: pi})
+				h.Ops = append(h.Ops, op{K: "peerdown", R: r, Peer: pi, Why: uint8(1 + rng.IntN(5))})
 				s.up[pi] = false
 				for k := range s.announced {
 					if strings.HasPrefix(k, fmt.Sprintf("%d/", pi)) {
@@ -352,6 +354,16 @@ func (h *hist) message(o op) []byte {
 	case "stats":
 		return m.Stats(h.hdr(o.R, o.Peer, false), [2]uint32{0, 1}, [2]uint32{7, 42})
 	case "peerdown":
+		// RFC 7854 §4.9: reasons 1 and 3 carry the NOTIFICATION PDU, 2 a two byte FSM event code, 4 and 5 nothing
+		switch o.Why {
+		case 1, 3:
+			n := append(bytes.Repeat([]byte{0xff}, 16), 0, 21, 3, 6, 2+o.Why)
+			return m.PeerDown(h.hdr(o.R, o.Peer, false), o.Why, n)
+		case 2:
+			return m.PeerDown(h.hdr(o.R, o.Peer, false), 2, []byte{0, byte(8 + o.Peer%20)})
+		case 5:
+			return m.PeerDown(h.hdr(o.R, o.Peer, false), 5, nil)
+		}
 		return m.PeerDown(h.hdr(o.R, o.Peer, false), 4, nil)
 	case "peerup":
 		rd := h.Routers[o.R]
